@@ -102,6 +102,30 @@ def case_saturation(ctx, nc, ns, win, per_channel, sym_fs, as_list=False, positi
         ctx.oblige("mute_is_function_of_flags_only", core.eq(m, expect), detail={"t": t})
 
 
+def case_saturation_long(ctx, ns, at):
+    """a long array (several thousand samples, silent except around sample `at`): the slew criterion between samples at-1 -> at is
+    applied wherever the pair lies (block-wise implementations must not lose the pair that straddles two blocks)"""
+    import ibldsp.voltage as v
+    nc = 2
+    p = ctx.real("proportion")
+    ctx.assume(and_(p > 0, p < 1))
+    s = ctx.real("v_per_sec")
+    ctx.assume(s > 0)
+    fs = 30000
+    sym = {(c, t): ctx.real(f"d{c}_{t}", -1, 1) for c in range(nc) for t in (at - 1, at)}
+    flat = [sym.get((c, t), 0.0) for c in range(nc) for t in range(ns)]
+    data = arrays.mk(flat, shape=(nc, ns), tag=np.dtype(np.float32))
+    flags, mute = ctx.call("saturation", v.saturation, data, 10.0, v_per_sec=s, fs=fs, proportion=p, mute_window_samples=3)
+    if not ctx.oblige("flag_length", tuple(flags.shape) == (ns,), detail={"shape": str(flags.shape)}):
+        return
+    val = lambda c, t: sym.get((c, t), 0.0)
+    for t in (at - 2, at - 1, at):
+        n_ge = sum([_n(abs(val(c, t + 1) - val(c, t)) >= s * fs) for c in range(nc)])
+        n_gt = sum([_n(abs(val(c, t + 1) - val(c, t)) > s * fs) for c in range(nc)])
+        ctx.oblige("flag_implies_rule", implies(flags[t], n_ge > p * nc), detail={"t": t})
+        ctx.oblige("rule_implies_flag", implies(n_gt > p * nc, flags[t]), detail={"t": t})
+
+
 # ------------------------------------------------------------------------------------------------ IEEE lemma for the proportion test
 class _CountMask:
     """a (nc, ns) boolean matrix of which only the number of True per sample is known: k of nc at the single sample"""
@@ -225,6 +249,8 @@ def cases(tier):
     cs.append(Case("sat_2x3_w3_symfs", "case_saturation", {"nc": 2, "ns": 3, "win": 3, "per_channel": False, "sym_fs": True}, timeout_s=900))
     # degenerate but legal sizes: one channel, one sample, a hard mute (window of one sample), an even window
     cs.append(Case("proportion_ieee_nc400", "case_proportion_ieee", {"max_nc": 400}, timeout_s=2400))
+    for at in ((4096,) if tier == "quick" else (4096, 8192, 1024, 2048, 65536)):
+        cs.append(Case(f"sat_long_pair_at_{at}", "case_saturation_long", {"ns": at + 3, "at": at}, timeout_s=1800))
     cs.append(Case("sat_2x3_w3_positional_arguments", "case_saturation", {"nc": 2, "ns": 3, "win": 3, "per_channel": False, "sym_fs": True, "positional": True}, timeout_s=900))
     cs.append(Case("sat_2x3_w3_range_list", "case_saturation", {"nc": 2, "ns": 3, "win": 3, "per_channel": True, "sym_fs": False, "as_list": True}, timeout_s=900))
     cs.append(Case("sat_1x3_w3_scalar", "case_saturation", {"nc": 1, "ns": 3, "win": 3, "per_channel": False, "sym_fs": False}, timeout_s=900))
@@ -251,6 +277,25 @@ def twins(tier):
 
 def replay(case, params, cex):
     m = cex["model"]
+    if case.startswith("sat_long"):
+        at, ns = params["at"], params["ns"]
+        vals = {k: str(v) for k, v in m.items() if k.startswith("d")}
+        return f"""
+import ibldsp.voltage as v
+F = lambda s: float(Fraction(s))
+ns, at, nc = {ns}, {at}, 2
+d = np.zeros((nc, ns))
+for k_, v_ in {vals}.items():
+    c, t = k_[1:].split('_'); d[int(c), int(t)] = F(v_)
+p, s = F({str(m['proportion'])!r}), F({str(m['v_per_sec'])!r})
+flags, mute = v.saturation(d.copy(), 10.0, v_per_sec=s, fs=30000, proportion=p, mute_window_samples=3)
+dd = np.abs(np.diff(d, axis=1))
+ge = np.r_[(dd >= s * 30000).sum(0), 0]; gt = np.r_[(dd > s * 30000).sum(0), 0]
+bad = [t for t in (at - 2, at - 1, at) if (flags[t] and not ge[t] > p * nc) or (gt[t] > p * nc and not flags[t])]
+print(flags[at - 3:at + 2], ge[at - 3:at + 2], bad)
+if bad: reproduced(f'slew between samples {{bad[0]}} and {{bad[0] + 1}} of a {{ns}}-sample array: flagged={{bool(flags[bad[0]])}}, channels over the slew limit: {{int(ge[bad[0]])}} of {{nc}} (proportion {{p}})')
+not_reproduced()
+"""
     if case.startswith("proportion_ieee"):
         return f"""
 import ibldsp.voltage as v
